@@ -82,6 +82,10 @@ static int g_listenerEnq;
 static void listenerEnqueue();
 struct K8 : Tracked { explicit K8(int id) : Tracked(id) {} void operator() (int v) const { entered(this, 2, v, true); if(g_listenerEnq < 3) { ++g_listenerEnq; listenerEnqueue(); } } };
 
+// a void(int) listener that throws every time it is called (C09 for the heterogeneous classes)
+struct Boom {};
+struct K9 : Tracked { explicit K9(int id) : Tracked(id) {} void operator() (int v) const { entered(this, 2, v, true); evx("xt", 2, id, 0, 0, v); throw Boom(); } };
+
 // ---- predicates: verdict = "uid is odd"
 static bool asked(int proto, int uid, bool ok) { evx("qb", proto, 0, ok ? 1 : 0, 0, uid); bool r = uid % 2 == 1; evx("qe", 0, 0, 0, r ? 1 : 0, 0); return r; }
 struct S2 { bool operator() (int v) const { return asked(2, v, true); } };
@@ -211,6 +215,7 @@ static void add(const char * e, int how, int shape, int beforeNo)
 #if W_KIND == 2
 	case 8: h = addCb(how, K8(id), before); break;
 #endif
+	case 9: h = addCb(how, K9(id), before); break;
 	default: h = addCb(how, K7(id), before); break;
 	}
 	H.push_back(h);
@@ -245,6 +250,7 @@ static void invoke(int shape)
 {
 	int uid = ++g_uid;
 	evx("ib", 0, shape, 0, 0, uid);
+	try {
 	switch(shape) {
 	case 1: call(); break;
 	case 2: { int v = uid; call(v); } break;
@@ -257,6 +263,8 @@ static void invoke(int shape)
 	case 6: { int v = uid; const TS s(uid); call(v, s); } break;
 	default: std::fprintf(stderr, "argument shape %d cannot be dispatched in this world\n", shape); std::exit(2);
 	}
+	}
+	catch(const Boom &) { evx("ix", 0, 0, 0, 0, uid); return; }
 	evx("ie", 0, 0, 0, 0, uid);
 }
 #if W_KIND == 2
@@ -279,6 +287,7 @@ static void process(int mode, int shape)
 {
 	evx("pb", 0, mode, shape, 0, 0);
 	bool r = false;
+	try {
 	if(mode == 1) r = obj->process();
 	else if(mode == 2) r = obj->processOne();
 	else switch(shape) {
@@ -288,6 +297,8 @@ static void process(int mode, int shape)
 		case 5: r = obj->processIf(S5()); break;
 		default: r = obj->processIf(S6()); break;
 	}
+	}
+	catch(const Boom &) { evx("px", 0, mode, 0, 0, 0); return; }
 	evx("pe", 0, mode, 0, r ? 1 : 0, 0);
 }
 #endif
@@ -325,6 +336,7 @@ static void step(const Op & op)
 	else if(k == "pa") process(1, 0);
 	else if(k == "po") process(2, 0);
 	else if(k == "pi") process(3, op.a);
+	else if(k == "eq") { bool r = obj->emptyQueue(); evx("eq", 0, 0, 0, r ? 1 : 0, 0); }
 #endif
 	else { std::fprintf(stderr, "unknown op %s\n", k.c_str()); std::exit(2); }
 }
@@ -336,6 +348,7 @@ static void epilogue()
 	process(2, 0);
 	process(1, 0);
 	process(1, 0);
+	{ bool r = obj->emptyQueue(); evx("eq", 0, 0, 0, r ? 1 : 0, 0); }
 #endif
 	for(int h = 1; h <= (int)H.size(); ++h) { bool r = removeHandle(h); evx("rl", 0, h, 0, r ? 1 : 0, 0); }
 	for(int s : shapes) invoke(s);
